@@ -1,8 +1,8 @@
 SPECIFICATION Spec
 CONSTANTS
   MaxN = 3
-  CounterAliased = FALSE
-  Guarded = FALSE
+  CounterAliased = TRUE
+  Guarded = TRUE
 INVARIANTS AssumePre
 CONSTRAINT SpinBound
 CHECK_DEADLOCK FALSE
